@@ -1043,6 +1043,13 @@ Verdict run_case(Choices& c, CaseLog& log)
                                         + fabsl(sw * (1 + fabsl(w * logl(sl)))
                                                 / (aref * w)));
                     }
+                    // alpha = (lambda - lambda1) / (lambda t) is computed by
+                    // the code in double: its relative rounding error is
+                    // amplified by lambda / |lambda - lambda1| and enters the
+                    // geometric path through w = 1 + 1/(alpha lambda)
+                    ztol += 64 * eps * fabsl(zref) * (ld)lambda
+                            / std::max<ld>(fabsl((ld)lambda - l1), 1e-300L)
+                            * (1 + fabsl(logl(l1 / (ld)lambda)));
                     // ill-conditioned when lambda1 ~ lambda (alpha ~ 0)
                     if (fabsl((ld)lambda - l1) < 1e-6 * lambda
                         || std::isnan(zlo) || std::isnan(zhi)
